@@ -32,6 +32,19 @@ class ScriptedError2(Exception):
     pass
 
 
+class ReturnedError(Exception):
+    """An exception *object* used as an ordinary value (returned, not raised); equality by type."""
+
+    def __eq__(self, other):
+        return type(other) is type(self)
+
+    def __ne__(self, other):
+        return not self == other
+
+    def __hash__(self):
+        return hash(type(self))
+
+
 class ScriptedInterrupt(BaseException):
     """interrupt-style termination (like KeyboardInterrupt / SystemExit)"""
 
